@@ -17,52 +17,62 @@ private def n (s : String) : Name := s.toList
 
 /-! ### relative imports resolve -/
 
-/-- FULL STRENGTH (FALSE on the pinned tree, kept visible): for all importer / importee module
-paths and both kinds of importer file, the emitted import designates the importee's module. -/
-def RelativeResolves : Prop :=
-  ∀ (cur ref : MPath) (cls : Name) (isInit : Bool), namesNonempty ref = true → cur ≠ ref →
-    ∃ r, emitted cur isInit false false ref cls = some r ∧ designated cur isInit r = some ref
+/-- FULL STRENGTH for package-file importers (holds since the repair of D8, commit dc968b7):
+for ALL importer / importee module paths of any depth — sibling, cousin, ancestor, root and
+descendant importees alike — the import written into the package `__init__` of `cur`
+(`relative`, one more dot unless the importee lies below the package) designates, by Python's
+rule from that file's location, exactly the importee's module. (`cur ≠ []`: the root package file is never processed with
+`init = True`; it is `relative_resolves_root`.) -/
+theorem relative_resolves_package_file (cur ref : MPath) (cls : Name)
+    (hn : namesNonempty ref = true) (hcur : cur ≠ []) (hne : cur ≠ ref) :
+    ∃ r, emitted cur true false false ref cls = some r ∧ designated cur true r = some ref := by
+  by_cases hp : cur <+: ref
+  · exact emitted_designates_init_descendant cur ref cls false false (noEmpty_of_bool hn) hcur hp hne
+  · exact emitted_designates cur ref cls true false false (noEmpty_of_bool hn) hp (by simp)
 
-/-- PARTIAL, all depths: it holds for every pair in which the importer is not a prefix of the
-importee — i.e. excluding exactly "the importee lies below the importer". For a package
-`__init__` importer that excluded case is known defect D8; for a plain-module importer it cannot
-arise in a covered file map (`descendant_implies_init_partial`). -/
-theorem relative_resolves_partial (cur ref : MPath) (cls : Name) (isInit : Bool)
-    (hn : namesNonempty ref = true) (h : cur.isPrefixOf ref = false) :
-    ∃ r, emitted cur isInit false false ref cls = some r ∧ designated cur isInit r = some ref :=
-  emitted_designates cur ref cls isInit false false (noEmpty_of_bool hn)
-    (fun hp => by rw [List.isPrefixOf_iff_prefix.mpr hp] at h; cases h) (by simp)
-
-/-- non-vacuity: sibling, cousin, ancestor and root importees, from a package file and from a plain module -/
-example : (n "a" :: [n "b"]).isPrefixOf [n "a", n "c"] = false := by decide
+/-- the former D8 witness: `a.b.M` (in `a/b/__init__.py`) referring to `a.b.d.X` now gets `from . import d` -/
+example : emitted [n "a", n "b"] true false false [n "a", n "b", n "d"] (n "X") = some ⟨1, [], n "d", true⟩ ∧
+    designated [n "a", n "b"] true ⟨1, [], n "d", true⟩ = some [n "a", n "b", n "d"] := by decide
+/-- … and a cousin importee still gets the extra dot -/
 example : designated [n "a", n "b"] true ((emitted [n "a", n "b"] true false false [n "a", n "c"] (n "Y")).get (by decide))
     = some [n "a", n "c"] := by decide
+
+/-- FULL STRENGTH for plain-module importers (FALSE as a statement about arbitrary pairs, kept
+visible): a plain module `cur.py` importing from a module below `cur`. -/
+def RelativeResolvesPlain : Prop :=
+  ∀ (cur ref : MPath) (cls : Name), namesNonempty ref = true → cur ≠ ref →
+    ∃ r, emitted cur false false false ref cls = some r ∧ designated cur false r = some ref
+
+/-- PARTIAL, all depths: a plain module resolves every importee that does not lie below it.
+The excluded case cannot arise in a covered file map: a module with a descendant is written as a
+package file (`descendant_implies_init_partial`). -/
+theorem relative_resolves_plain_partial (cur ref : MPath) (cls : Name)
+    (hn : namesNonempty ref = true) (h : cur.isPrefixOf ref = false) :
+    ∃ r, emitted cur false false false ref cls = some r ∧ designated cur false r = some ref :=
+  emitted_designates cur ref cls false false false (noEmpty_of_bool hn)
+    (fun hp => by rw [List.isPrefixOf_iff_prefix.mpr hp] at h; cases h) (by simp)
+
+example : (n "a" :: [n "b"]).isPrefixOf [n "a", n "c"] = false := by decide
 example : designated [n "a", n "b", n "c"] false ((emitted [n "a", n "b", n "c"] false false false [n "x", n "y"] (n "Y")).get (by decide))
     = some [n "x", n "y"] := by decide
 example : designated [n "a", n "b"] false ((emitted [n "a", n "b"] false false false [] (n "Z")).get (by decide))
     = some [] := by decide
 
-/-- REFUTATION of the full statement = known defect D8: model `a.b.M` (written to
-`a/b/__init__.py`) refers to `a.b.d.X`; the import is `from .. import d`, which Python reads as
-module `a.d`, not `a.b.d`. -/
-theorem init_importer_descendant_unresolved :
-    emitted [n "a", n "b"] true false false [n "a", n "b", n "d"] (n "X") = some ⟨2, [], n "d", true⟩ ∧
-    designated [n "a", n "b"] true ⟨2, [], n "d", true⟩ = some [n "a", n "d"] ∧
-    designated [n "a", n "b"] true ⟨2, [], n "d", true⟩ ≠ some [n "a", n "b", n "d"] := by decide
+/-- REFUTATION of the plain-module statement: from a *plain* module `a/b.py` the import of
+`a.b.d.X` is `from . import d`, which Python reads as `a.d`. This is why the file map must turn
+every module with descendants into a package (it does not always: `descendant_implies_init_false`). -/
+theorem plain_importer_descendant_unresolved :
+    emitted [n "a", n "b"] false false false [n "a", n "b", n "d"] (n "X") = some ⟨1, [], n "d", true⟩ ∧
+    designated [n "a", n "b"] false ⟨1, [], n "d", true⟩ = some [n "a", n "d"] ∧
+    designated [n "a", n "b"] false ⟨1, [], n "d", true⟩ ≠ some [n "a", n "b", n "d"] := by decide
 
-theorem relative_resolves_false : ¬ RelativeResolves := by
+theorem relative_resolves_plain_false : ¬ RelativeResolvesPlain := by
   intro h
-  obtain ⟨r, hr, hd⟩ := h [n "a", n "b"] [n "a", n "b", n "d"] (n "X") true (by decide) (by decide)
-  have h1 := init_importer_descendant_unresolved
+  obtain ⟨r, hr, hd⟩ := h [n "a", n "b"] [n "a", n "b", n "d"] (n "X") (by decide) (by decide)
+  have h1 := plain_importer_descendant_unresolved
   rw [h1.1] at hr
   cases hr
   exact h1.2.2 hd
-
-/-- the same pair from a *plain* module `a/b.py` would not resolve either (`from . import d` is
-`a.d`); this is why the file map must turn every module with descendants into a package. -/
-theorem plain_importer_descendant_unresolved :
-    emitted [n "a", n "b"] false false false [n "a", n "b", n "d"] (n "X") = some ⟨1, [], n "d", true⟩ ∧
-    designated [n "a", n "b"] false ⟨1, [], n "d", true⟩ = some [n "a", n "d"] := by decide
 
 /-- The root `__init__.py` is processed with `init = False` although Python treats it as a
 package file; every import written there resolves (all importees, any depth, any form). -/
@@ -73,19 +83,31 @@ theorem relative_resolves_root (ref : MPath) (cls : Name) (exact isBase : Bool)
 
 /-! ### exact imports (`--use-exact-imports`, and always for base classes) -/
 
-/-- PARTIAL: `from <dots><pkg>.<module> import Class` designates the importee's module whenever
-neither path is a prefix of the other. -/
-theorem exact_resolves_partial (cur ref : MPath) (cls : Name) (isInit exact isBase : Bool)
+/-- PARTIAL, package-file importers: `from <dots><pkg>.<module> import Class` designates the
+importee's module unless the importee's module is a prefix of the importer's (a class of an
+ancestor package). Importees BELOW the package are included. -/
+theorem exact_resolves_package_file_partial (cur ref : MPath) (cls : Name) (exact isBase : Bool)
+    (hn : namesNonempty ref = true) (hcur : cur ≠ []) (hne : cur ≠ ref) (h2 : ref.isPrefixOf cur = false) :
+    ∃ r, emitted cur true exact isBase ref cls = some r ∧ designated cur true r = some ref := by
+  by_cases hp : cur <+: ref
+  · exact emitted_designates_init_descendant cur ref cls exact isBase (noEmpty_of_bool hn) hcur hp hne
+  · exact emitted_designates cur ref cls true exact isBase (noEmpty_of_bool hn) hp
+      (fun _ hq => by rw [List.isPrefixOf_iff_prefix.mpr hq] at h2; cases h2)
+
+/-- PARTIAL, plain-module importers: neither path may be a prefix of the other. -/
+theorem exact_resolves_plain_partial (cur ref : MPath) (cls : Name) (exact isBase : Bool)
     (hn : namesNonempty ref = true) (h1 : cur.isPrefixOf ref = false) (h2 : ref.isPrefixOf cur = false) :
-    ∃ r, emitted cur isInit exact isBase ref cls = some r ∧ designated cur isInit r = some ref :=
-  emitted_designates cur ref cls isInit exact isBase (noEmpty_of_bool hn)
+    ∃ r, emitted cur false exact isBase ref cls = some r ∧ designated cur false r = some ref :=
+  emitted_designates cur ref cls false exact isBase (noEmpty_of_bool hn)
     (fun hp => by rw [List.isPrefixOf_iff_prefix.mpr hp] at h1; cases h1)
     (fun _ hp => by rw [List.isPrefixOf_iff_prefix.mpr hp] at h2; cases h2)
 
 example : designated [n "a", n "b"] false ((emitted [n "a", n "b"] false true false [n "a", n "c"] (n "X")).get (by decide))
     = some [n "a", n "c"] := by decide
+example : designated [n "a", n "b"] true ((emitted [n "a", n "b"] true true false [n "a", n "b", n "d"] (n "X")).get (by decide))
+    = some [n "a", n "b", n "d"] := by decide
 
-/-- REFUTATION of the exact form without the second hypothesis (defect found by this check):
+/-- REFUTATION of the exact form without the second hypothesis (open finding C12-exact-ancestor):
 `a.b.M` deriving from (or, under `--use-exact-imports`, referring to) `a.X` — a class of the
 ancestor package `a/__init__.py` — gets `from .X import X`, i.e. module `a.X`, which does not exist. -/
 theorem exact_ancestor_member_unresolved :
@@ -174,13 +196,17 @@ theorem treatDot_clobbers_init :
     (fileMapOpt false [[n "a", n "b", n "c"], [n "a"], []]).lookup (.init [n "a"]) = some (some [n "a"]) ∧
     (fileMapOpt true [[n "a", n "b", n "c"], [n "a"], []]).lookup (.init [n "a"]) = some none := by decide
 
-/-! ### composition: every import of a covered file map resolves, except D8 and the exact/ancestor case -/
+/-! ### composition: every import of a covered file map resolves, except the exact/ancestor case -/
 
+/-- In every deepest-first, covered file map, for every module `a` of the map (package file,
+plain module or root) and every importee with models, the emitted import designates the
+importee's module by Python's rule from the file `a` is written to. The only exclusion left is
+the exact form of an import from an ancestor package (`hex`); `covered` is what rules out
+"plain module with the importee below it". -/
 theorem imports_resolve_in_file_map (mods : List MPath) (hd : deepestFirst mods = true)
     (hcov : covered mods = true) (a : Assigned) (ha : a ∈ assign [] (procOrder mods))
     (ref : MPath) (href : ref ∈ mods) (hn : namesNonempty ref = true)
     (cls : Name) (exact isBase : Bool) (hne : ref ≠ a.mod)
-    (hD8 : ¬ (a.init = true ∧ a.mod <+: ref))
     (hex : (exact || isBase) = true → ¬ ref <+: a.mod) :
     ∃ r, emitted a.mod a.init exact isBase ref cls = some r ∧
       designated a.mod a.key.isInit r = some ref := by
@@ -195,24 +221,25 @@ theorem imports_resolve_in_file_map (mods : List MPath) (hd : deepestFirst mods 
     · exact absurd hroot h0
   · have hp : (⟨ref, true⟩ : Proc) ∈ procOrder mods := mem_procFrom_of_mem href
     by_cases hpre : a.mod <+: ref
-    · -- importee below importer: the importer is a package file (covered), which is the excluded D8 case
-      have := descendant_implies_init_key hd hcov ha hp hpre (fun h => hne h.symm)
-      exact absurd ⟨this.2 hroot, hpre⟩ hD8
+    · -- importee below importer: the importer is a package file (covered) and uses the single dot
+      have hinit := descendant_implies_init_key hd hcov ha hp hpre (fun h => hne h.symm)
+      rw [hinit.1, hinit.2 hroot]
+      exact emitted_designates_init_descendant a.mod ref cls exact isBase (noEmpty_of_bool hn) hroot hpre (fun h => hne h.symm)
     · obtain ⟨l1, p, l2, _, rfl⟩ := mem_assign ha
       rcases assignOne_cases (parentsAfter [] l1) p with ⟨h0, _⟩ | ⟨_, _, hk, hi⟩ | ⟨_, _, hk, hi⟩
       · rw [assignOne_mod] at hroot; exact absurd h0 hroot
       · rw [hk, hi]; exact emitted_designates _ ref cls true exact isBase (noEmpty_of_bool hn) hpre hex
       · rw [hk, hi]; exact emitted_designates _ ref cls false exact isBase (noEmpty_of_bool hn) hpre hex
 
-/-- non-vacuity of the composition: `a.b.M`, `a.b.d.X`, `a.c.Y`, `Z` — the plain module `a/c.py` importing from
-`a.b.d`, and the package file `a/b/__init__.py` importing from the root, satisfy every hypothesis -/
+/-- non-vacuity of the composition: `a.b.M`, `a.b.d.X`, `a.c.Y`, `Z` — the plain module `a/c.py` and the package
+file `a/b/__init__.py`, both importing from `a.b.d` (for the latter: a module below it), satisfy every hypothesis -/
 example :
     let mods : List MPath := [[n "a", n "b", n "d"], [n "a", n "c"], [n "a", n "b"], []]
     deepestFirst mods = true ∧ covered mods = true ∧
     (⟨[n "a", n "c"], true, .py [n "a"] (n "c"), false⟩ : Assigned) ∈ assign [] (procOrder mods) ∧
     (⟨[n "a", n "b"], true, .init [n "a", n "b"], true⟩ : Assigned) ∈ assign [] (procOrder mods) ∧
     [n "a", n "b", n "d"] ∈ mods ∧ namesNonempty [n "a", n "b", n "d"] = true ∧
-    ¬ ([n "a", n "c"] <+: [n "a", n "b", n "d"]) ∧ ¬ ([n "a", n "b"] <+: ([] : MPath)) := by decide
+    ([n "a", n "b"] <+: [n "a", n "b", n "d"]) := by decide
 
 /-- non-vacuity of `child_implies_init` and of the treat-dot hypothesis -/
 example :
